@@ -40,8 +40,8 @@ def rewrite_counter_for_faults(dst):
 FAULT_FILE = Suite(
     name="fault-file", harness="vh_fault", runner="fault",
     model_deps=["theories/Model/FileRest.vo", "theories/Model/FileFault.vo"],
-    quick_n=2400, thorough_n=9000, rewrite=rewrite_counter_for_faults, tags="verif,verifconc,veriffault",
-    rule="(a) rest cases (2/3 of n): a counter file is built with the real code (1-6 counters, same-bucket, long and "
+    quick_n=2100, thorough_n=9000, rewrite=rewrite_counter_for_faults, tags="verif,verifconc,veriffault",
+    rule="(a) rest cases (quick: what remains of n after the 800 plan, 570 cfail, 26 openapi and 172 dup cases; thorough: the remainder likewise): a counter file is built with the real code (1-6 counters, same-bucket, long and "
          "short names, four header lengths), damaged at rest by one of: allocation limit (0, inside header / table, "
          "at / inside / just after a record, true limit +-32, at / beyond EOF, values whose page rounding wraps around "
          "4 GiB), a bucket head or a next link (0, own record, other record, into the header, past EOF, unaligned by "
@@ -52,15 +52,34 @@ FAULT_FILE = Suite(
          "mappedFile.lookup / newCounter / Counter.add on existing and new names, each as a managed thread under the "
          "deterministic scheduler with a step budget and recover(); the file bytes before and the byte changes made by "
          "every call are compared with Model/FileRest run on the same bytes (result, new length, every byte the call "
-         "changed and every byte the model may write). (b) plan cases (1/3 of n in quick; all in thorough): the real "
+         "changed and every byte the model may write). (b) plan cases (800 in quick; all in thorough): the real "
          "rotate1 -> weekEnd / MkdirAll / openMapped, then Add of counters that fit, then of one that needs extend, "
          "with a fault plan installed in the os shim (call index -> ENOENT / EACCES / ENOSPC / EIO / short write), on "
          "seven initial directory states (fresh, weekends valid / blank / garbage, counter file valid / shorter than "
          "16 KiB / other header): no fault, every single call index 0..39 x kind (quick: all kinds on two states, EIO "
-         "and short write on the others, up to n/3 cases; thorough: everything) and, in thorough, all pairs of call "
+         "and short write on the others, up to 800 cases; thorough: everything) and, in thorough, all pairs of call "
          "indices below 30 with kinds {EIO, short} x {ENOSPC, short} on two states; compared with Model/FileFault: "
          "number of calls made by the open, parked or mapped, total number of calls, where the counts ended (in "
-         "memory / in the file). distinct = distinct case lines; none is trivial")
+         "memory / in the file). (d) openapi cases (26, both tiers): the package-level counter.Open(rotate) is "
+         "once-per-process, so each case is a child process of the harness binary: every state of the mode file "
+         "(absent, empty, blank, garbage, off / off with date / padded off, on, local, 1500 bytes) and no "
+         "configuration directory at all (zero telemetry.Dir) x rotate in {false, true}; the child calls Open(rotate) "
+         "twice with the same value, increments a counter and calls the close functions; a panic or a crash of the "
+         "child is class panic; whether a counter file was created is compared with Model/FileFault.mode_off. "
+         "(c) cfail cases (570 in quick): one goroutine runs Counter.Add on a mapped file while rotate1 FAILS (mode "
+         "switched off, weekends unreadable, MkdirAll / OpenFile / mmap of the new week's file failing, short header "
+         "write) and parks the file: the failing rotation runs to completion after the first k steps of the Add, for "
+         "every k (quick 0..24, thorough 0..60; counter with / without a pointer), and the rotation stopped after j "
+         "of its steps with a whole late Add in between; oracles panic, hang, counts-invented, "
+         "entered-through-closed-mapping. (e) dup cases (172 in quick, 1202 in thorough): two file objects (two "
+         "instances of one program) map the same counter file whose first page is nearly full and record the SAME new "
+         "4 KiB name at the same time (instance i runs k steps, the other completes, i finishes, for every k <= 70 / "
+         "400 and both i; plus random interleavings); both must extend / re-map, the loser finds the duplicate after "
+         "its re-map; then, with everything returned, each adds once more: oracles panic, hang, "
+         "entered-through-closed-mapping (an Add after quiescence goes through a closed mapping), "
+         "one-record-per-name, counts-invented, counts-lost (in memory + record = everything added); oracle only, the "
+         "positive statements are C04's (C04_one_record_per_name, C04_caller_mapping_kept, C04_bounded). "
+         "distinct = distinct case lines; none is trivial")
 
 FAULT_UPLOAD = Suite(
     name="fault-upload", harness="vh_upload", runner="uploadf",
